@@ -26,7 +26,7 @@ import (
 
 var byzMutations = []string{"drop-first", "dup-first", "swap-first", "two-msgs", "second-block-msg", "with-relayer-msg", "other-author", "other-author-consistent", "fee-recipient", "fork-parent",
 	"beacon-root", "blob-gas", "future-ts", "goat-omit-last", "goat-omit-all", "goat-dup", "goat-reorder", "goat-flip", "goat-count", "bad-sig", "timeout-height", "memo",
-	"too-many", "garbage-first", "nil-payload", "foreign-msg-tx", "non-proposer-relayer-tx", "parent-field", "number-field", "extra-data-short"}
+	"too-many", "garbage-first", "nil-payload", "foreign-msg-tx", "non-proposer-relayer-tx", "parent-field", "number-field", "extra-data-short", "field-length", "field-length"}
 
 var junkKinds = []string{"stale-seq", "ex-proposer", "expired", "foreign", "block-msg", "valid-empty-vote", "valid-empty-vote", "valid-empty-vote", "bad-sig", "memo"}
 
@@ -325,6 +325,26 @@ func (w *World) mutateProposal(n *Node, h int64, t time.Time, pv *cmttypes.Valid
 	case "number-field":
 		m := clone()
 		m.Payload.BlockNumber += 1 + uint64(r.Intn(3))
+		return resign(m, nil)
+	case "field-length":
+		// a hash / address field of non-canonical length: the conversion to the engine's types crops
+		// from the left and pads on the left, so the engine sees the same block and says VALID,
+		// while byte-wise comparisons against recorded state see another value
+		m := clone()
+		fields := map[string]*[]byte{"fee-recipient": &m.Payload.FeeRecipient, "parent-hash": &m.Payload.ParentHash, "block-hash": &m.Payload.BlockHash,
+			"state-root": &m.Payload.StateRoot, "receipts-root": &m.Payload.ReceiptsRoot, "prev-randao": &m.Payload.PrevRandao, "beacon-root": &m.Payload.BeaconRoot}
+		name := pick(r, []string{"fee-recipient", "fee-recipient", "parent-hash", "block-hash", "block-hash", "state-root", "receipts-root", "prev-randao", "beacon-root"})
+		f := fields[name]
+		if len(*f) > 0 && (*f)[0] == 0 && r.Chance(0.5) {
+			*f = append([]byte{}, (*f)[1:]...) // a leading zero byte dropped
+		} else {
+			pad := r.Bytes(1 + r.Intn(12))
+			if r.Chance(0.3) {
+				pad = make([]byte, len(pad))
+			}
+			*f = append(pad, *f...)
+		}
+		w.probe("byz-field-length/" + name)
 		return resign(m, nil)
 	case "extra-data-short":
 		m := clone()
